@@ -1,3 +1,6 @@
+import PydapModel.CacheKey
 import PydapModel.Generated.Tables
+import PydapModel.Proxy
 import PydapModel.Sexp
 import PydapModel.Slice
+import PydapModel.Subset
